@@ -45,6 +45,13 @@ def configs(tier, seed):
     for trio, K in ((["covariance:ign", "max:prop", "sum:prop"], 2), (["corrcoef:ign", "min:prop", "count:prop"], 2),
                     (["stddev:ign", "quantile:prop", "valid_count:prop"], 1), (["max:prop", "covariance:ign", "mean:ign"], 2)):
         out.append(C03._base(3, [[]], 2, [0], "sum", weights="none", ignore=False, fact="nan", K=K, fmt="nan", side="xcube", trio=trio))
+        # the same statistics with weights in both forms (caller-owned weight arrays must stay untouched)
+        wtrio = [t for t in trio if not t.startswith(("max", "min"))] + ["sum:prop"]
+        out.append(C03._base(2, [[]], 2, [1], "sum", weights="pair", ignore=False, fact="pair" if K == 1 else "nan", K=K, fmt="nan",
+                             side="xcube", trio=wtrio[:3], wvals=["1/2", "3"]))
+        if tier == "thorough" or K == 2:
+            out.append(C03._base(2, [[]], 2, [0], "sum", weights="array", ignore=False, fact="nan", K=K, fmt="nan",
+                                 side="xcube", trio=wtrio[:3], wvals=["3", "1"]))
         if tier == "thorough":
             out.append(C03._base(3, [[]], 2, [1], "sum", weights="none", ignore=True, fact="nan", K=K, fmt="pair", side="xcube", trio=trio))
     return out
